@@ -78,7 +78,7 @@ def setup(ctx):
 
 def gen_cases(ctx):
     rng = ctx.rng
-    n = ctx.n(2400, 50000)
+    n = ctx.n(9600, 120000)
     for i in range(n):
         k = i % 6
         if k < 3:
